@@ -85,7 +85,7 @@ META["C02"] = dict(
           "reopenings, followed by catch-up, reflects every row-store insert of every acknowledged passing entry exactly once; while up the table "
           "is always exactly a prefix of the WAL and the directory is always exactly the prefix up to the persisted offset; clean Close/reopen is "
           "the special case; the shipped per-element submission of array values is refuted by a witness trace (repaired in /repo). "
-          "Correspondence: child processes killed at armed crash points / by SIGKILL / without Close over up to 3 rounds, then per-entry "
+          "The per-source offsets a recovering table resumes from are combined by OffsetsBySource.Advance, modelled structurally (Model/Offsets.v): source by source the later offset, never backwards (C02_offsets_*), tied by stage offs. Correspondence: child processes killed at armed crash points / by SIGKILL / without Close over up to 3 rounds, then per-entry "
           "multiplicities and table rows vs the model."),
     design_ref="DESIGN.md section 4 / C02",
     note=("Flush is one atomic step of the model (rename is the commit point; the crash points before and after it are exercised on the real code). "
@@ -99,6 +99,7 @@ META["C03"] = dict(
           "state of all points; the state read is the one accumulated from exactly the points of that key and period. "
           "For the radix tree the merge of file and memstore goes through: Remove hands back exactly the key's data once per context and "
           "changes neither keys nor data (C03_tree_remove, all keys). "
+          "fileStore.iterate's use of the tree (Remove every key of the file, then Walk the rest in one context) delivers every key of file and memstore exactly once, each file key with exactly the memstore's data for it (C03_tree_iterate_each_key_once). The row format of the files (Model/RowCodec.v) round-trips: what doWrite writes for a row is what a scan reads back, for every key shorter than 2^16 bytes (C03_row_written_is_row_read), with the write sequence translated from the source on every run. "
           "Correspondence: the real DB under 5 kinds of flush/reopen schedules, all/some fields, memstore on/off after a flush, vs the "
           "schedule-independent reference; scans held against flushes and the remover (stage pin); the real bytetree.Tree vs Model/Tree.v."),
     design_ref="DESIGN.md section 4 / C03", note=_DBNOTE + " The store model covers one column; per-field independence, sorted flushes (emsort) and memory-pressure flushes are covered by correspondence only / not at all respectively.",
@@ -166,7 +167,7 @@ META["C16"] = dict(
     text=("Theorems (Props/C16.v): an entry point that recovers maps every inner outcome to a value or an error, never a crash; every "
           "entry point that evaluates client-supplied SQL, dimension expressions or payloads (sql.Parse, planner.Plan, table.insert, "
           "rowStore.safeUpdate, iteration.safeOnValue, mapPartitionRequest) has a recover — checked on the site list translated from "
-          "the source on this run; sql.Parse/TableFor no longer assert the statement kind unchecked. Correspondence: hostile SQL and "
+          "the source on this run; sql.Parse/TableFor no longer assert the statement kind unchecked. A key of 2^16 bytes or more cannot be held by the row format (C16_long_key_unrepresentable) and the guards that refuse it are read from the source on every run (C16_long_keys_refused). Correspondence: hostile SQL and "
           "insert payloads executed in crash-isolating worker processes against the real parser, planner and DB."),
     design_ref="DESIGN.md section 4 / C16",
     note=("PARTIAL by nature: 'all byte strings' is proved only for zenodb's own dispatch structure (recover sites, checked assertion); the "
@@ -200,7 +201,7 @@ META["C12"] = dict(
           "deliveries and reader restarts caused by other tables) every follower of partition p holds, at every quiescent reachable state, exactly the "
           "accepted entries routed to p, each once, in order; redundant followers are identical; the partitions together hold every accepted entry "
           "once; several leaders are independent; the fair schedule reaches quiescence; the one precondition (announced EarliestOffset <= persisted "
-          "table offset) is shown necessary by a refuting trace. Correspondence: fault histories on in-process clusters vs the model run on the same operations."),
+          "table offset) is shown necessary by a refuting trace. The offsets a follower announces are combined by OffsetsBySource.Advance (Model/Offsets.v: pointwise the later offset, never backwards; C12_offsets_*; stage offs). Correspondence: fault histories on in-process clusters vs the model run on the same operations."),
     design_ref="DESIGN.md section 4 / C12",
     note=("Modelled: one table per source in isolation (other tables appear as adversarial extra deliveries). Not modelled: gRPC transport and server.followSource itself (transcribed in the harness shim), "
           "WAL internals, leader WAL loss, MaxFollowAge, MaxFollowQueue back-pressure."),
